@@ -10,6 +10,7 @@ from vlib.ref import bip39 as R39
 from vlib.util import call, expect_eq
 
 PROPERTY_ID = "C03"
+OPTIMIZED = ['text', 'seed', 'constructors']   # clauses run a second time under `python -O` (assert statements stripped)
 RULE = ("mnemonic and passphrase strings from all of Unicode, from a curated alphabet where NFKD is not the identity "
         "(precomposed Latin, compatibility forms, Hangul, CJK compatibility, U+3000, combining marks) and from real "
         "sentences; seeds of 0..128 bytes incl. leading-zero seeds; oracle = explicit 2048-round PBKDF2 loop over "
